@@ -181,7 +181,163 @@ func answerOrder(env *Env) []string {
 
 // ---------- C04: exclusive gateway ----------
 
+// genC04PerToken: k tokens reach the gateway concurrently, each after its own upstream task wrote a
+// different value of x; the conditions are "x == j". What each token saw is recorded by the spying
+// expression language, so the oracle needs no assumption about the relative speed of the branches.
+func genC04PerToken(d *Draw) Case {
+	defs := &Definitions{}
+	g := &Graph{ID: "P1", Executable: true}
+	defs.Procs = []*Graph{g}
+	k := 2 + d.N(2)
+	nc := 2 + d.N(2)
+	hasDefault := d.N(2) == 1
+	total := nc
+	if hasDefault {
+		total++
+	}
+	defPos := d.N(total)
+	g.addNode(&Node{ID: "Start", Kind: "start"})
+	g.addNode(&Node{ID: "F", Kind: "and"})
+	g.connect(defs, "Start", "F", nil, -1)
+	g.addNode(&Node{ID: "X", Kind: "xor"})
+	for i := 1; i <= k; i++ {
+		u := g.addNode(&Node{ID: fmt.Sprintf("U%d", i), Kind: "task", Results: []string{"x"}, Writes: map[string]any{"x": 1 + d.N(nc+1)}})
+		g.connect(defs, "F", u.ID, nil, -1)
+		g.connect(defs, u.ID, "X", nil, -1)
+	}
+	ci := 0
+	for pos := 0; pos < total; pos++ {
+		b := g.addNode(&Node{ID: fmt.Sprintf("B%d", pos+1), Kind: "task"})
+		e := g.addNode(&Node{ID: fmt.Sprintf("E%d", pos+1), Kind: "end"})
+		if hasDefault && pos == defPos {
+			f := g.connect(defs, "X", b.ID, nil, -1)
+			g.Node("X").Default = f.ID
+		} else {
+			ci++
+			g.connect(defs, "X", b.ID, &Cond{Lang: "spy", Raw: fmt.Sprintf("x == %d", ci)}, -1)
+		}
+		g.connect(defs, b.ID, e.ID, nil, -1)
+	}
+	g.index()
+	prog := &Program{Defs: defs, Vars: map[string]any{"x": 0}, Desc: fmt.Sprintf("per-token data: tokens=%d conds=%d default=%v@%d", k, nc, hasDefault, defPos), Tags: []string{"per-token-data"}}
+	c := &ProcCase{Prog: prog, Buf: d.N(17), Hold: d.N(3)}
+	c.Picks = drawPicks(d, 24)
+	c.Meta = map[string]int{"k": k, "pertoken": 1, "nc": nc}
+	return c
+}
+
+func checkC04PerToken(c *ProcCase, r *simrt.Result) *Outcome {
+	o := &Outcome{}
+	var vl vlist
+	genericRunViolations("C04", r, &vl)
+	for _, p := range r.Panics {
+		vl.add("C04/panic", "%s", p)
+	}
+	g := c.Prog.Defs.Procs[0]
+	x := g.Node("X")
+	// listed non-default flows and their targets
+	var nd []*Flow
+	for _, fid := range x.Out {
+		if fid != x.Default {
+			nd = append(nd, g.Flow(fid))
+		}
+	}
+	evals := map[int][]bool{}
+	var order []int
+	got := map[string]int{}
+	errs := 0
+	quiesced := false
+	for _, ev := range c.env.L.E {
+		switch ev.Kind {
+		case "eval":
+			if _, ok := evals[ev.G]; !ok {
+				order = append(order, ev.G)
+			}
+			evals[ev.G] = append(evals[ev.G], ev.B == "true")
+		case "t:task":
+			if strings.HasPrefix(ev.A, "B") {
+				got[ev.A]++
+			}
+		case "t:error":
+			if strings.Contains(ev.B, "`X`") {
+				errs++
+			} else {
+				vl.add("C04/unexpected-error-trace", "%s: %s", ev.A, ev.B)
+			}
+		case "quiescent":
+			quiesced = true
+		case "fatal":
+			vl.add("C04/harness", "%s", ev.A)
+		}
+	}
+	if !quiesced {
+		vl.add("C04/no-quiescence", "the run did not reach terminal quiescence")
+	}
+	want := map[string]int{}
+	wantErr := 0
+	tokens := 0
+	for _, gid := range order {
+		v := evals[gid]
+		for len(v) >= len(nd) && len(nd) > 0 {
+			tokens++
+			chosen := ""
+			for i := 0; i < len(nd); i++ {
+				if v[i] {
+					chosen = nd[i].To
+					break
+				}
+			}
+			if chosen == "" && x.Default != "" {
+				chosen = g.Flow(x.Default).To
+			}
+			if chosen == "" {
+				wantErr++
+			} else {
+				want[chosen]++
+			}
+			v = v[len(nd):]
+		}
+		if len(v) != 0 {
+			vl.add("C04/harness", "token goroutine %d evaluated %d conditions, not a multiple of %d", gid, len(evals[gid]), len(nd))
+		}
+	}
+	if quiesced {
+		if tokens != c.Meta["k"] {
+			vl.add("C04/token-count", "%d tokens evaluated the gateway's conditions, %d arrived", tokens, c.Meta["k"])
+		}
+		keys := map[string]bool{}
+		for k := range want {
+			keys[k] = true
+		}
+		for k := range got {
+			keys[k] = true
+		}
+		for k := range keys {
+			if want[k] != got[k] {
+				vl.add("C04/wrong-branch", "branch task %s requested %d time(s); the condition values the tokens evaluated (first true in listed order, else default) prescribe %d (all: got=%v want=%v errors got=%d want=%d)", k, got[k], want[k], got, want, errs, wantErr)
+			}
+		}
+		if errs != wantErr {
+			vl.add("C04/missing-error-trace", "ErrorTrace naming the gateway seen %d time(s), %d token(s) had no true condition and no default", errs, wantErr)
+		}
+	}
+	o.Viol = vl.v
+	o.Tags = c.Prog.Tags
+	o.Nontrivial = r.Switches > 0
+	distinct := 0
+	for range want {
+		distinct++
+	}
+	probe(o, "per-token-data", true)
+	probe(o, "tokens-took-different-branches", distinct > 1)
+	o.Sample = map[string]any{"program": c.Prog.Desc, "evaluations": evals, "taken": got, "buf": c.Buf, "hold": c.Hold}
+	return o
+}
+
 func genC04(d *Draw) Case {
+	if d.N(3) == 2 {
+		return genC04PerToken(d)
+	}
 	defs := &Definitions{}
 	g := &Graph{ID: "P1", Executable: true}
 	defs.Procs = []*Graph{g}
@@ -267,6 +423,9 @@ func genC04(d *Draw) Case {
 
 func checkC04(cc Case, r *simrt.Result) *Outcome {
 	c := cc.(*ProcCase)
+	if c.Meta["pertoken"] == 1 {
+		return checkC04PerToken(c, r)
+	}
 	o := &Outcome{}
 	var vl vlist
 	genericRunViolations("C04", r, &vl)
@@ -318,12 +477,31 @@ func genC05(d *Draw) Case {
 		total++
 	}
 	defPos := d.N(total)
+	acts := 1
+	if d.N(3) == 2 {
+		acts = 2 + d.N(2) // the fork/join pair is re-entered through a loop
+	}
+	siblings := 0
+	if d.N(2) == 1 {
+		siblings = 1 + d.N(2) // unrelated parallel activity next to the inclusive block
+	}
 	mk := func(id string) *Node {
 		return g.addNode(&Node{ID: id, Kind: "task", Results: []string{"r_" + id}})
 	}
 	g.addNode(&Node{ID: "Start", Kind: "start"})
+	cur := "Start"
+	if siblings > 0 {
+		g.addNode(&Node{ID: "PA", Kind: "and"})
+		g.connect(defs, cur, "PA", nil, -1)
+		cur = "PA" // the inclusive block hangs on the first outgoing flow of the fork
+	}
+	if acts > 1 {
+		g.addNode(&Node{ID: "LM", Kind: "xor"})
+		g.connect(defs, cur, "LM", nil, -1)
+		cur = "LM"
+	}
 	t0 := mk("T0")
-	g.connect(defs, "Start", t0.ID, nil, -1)
+	g.connect(defs, cur, t0.ID, nil, -1)
 	g.addNode(&Node{ID: "O", Kind: "or"})
 	g.connect(defs, t0.ID, "O", nil, -1)
 	g.addNode(&Node{ID: "OJ", Kind: "or"})
@@ -364,13 +542,39 @@ func genC05(d *Draw) Case {
 	}
 	ta := mk("TA")
 	g.connect(defs, "OJ", ta.ID, nil, -1)
+	cur = ta.ID
+	if acts > 1 {
+		ta.Results = append(ta.Results, "i_TA")
+		ta.Counter = "i_TA"
+		g.addNode(&Node{ID: "LS", Kind: "xor"})
+		g.connect(defs, cur, "LS", nil, -1)
+		g.connect(defs, "LS", "LM", &Cond{LtVar: "i_TA", Lt: acts}, -1)
+		g.addNode(&Node{ID: "LX", Kind: "xor"})
+		df := g.connect(defs, "LS", "LX", nil, -1)
+		g.Node("LS").Default = df.ID
+		cur = "LX"
+	}
+	if siblings > 0 {
+		g.addNode(&Node{ID: "PJ", Kind: "and"})
+		g.connect(defs, cur, "PJ", nil, -1)
+		for s := 1; s <= siblings; s++ {
+			prev := "PA"
+			for k := 0; k < 1+d.N(3); k++ {
+				t := mk(fmt.Sprintf("Q%d_%d", s, k+1))
+				g.connect(defs, prev, t.ID, nil, -1)
+				prev = t.ID
+			}
+			g.connect(defs, prev, "PJ", nil, -1)
+		}
+		cur = "PJ"
+	}
 	g.addNode(&Node{ID: "End", Kind: "end"})
-	g.connect(defs, ta.ID, "End", nil, -1)
+	g.connect(defs, cur, "End", nil, -1)
 	g.index()
-	prog := &Program{Defs: defs, Vars: vars, Desc: fmt.Sprintf("or[%s]", strings.Join(desc, " | "))}
+	prog := &Program{Defs: defs, Vars: vars, Desc: fmt.Sprintf("or[%s] activations=%d parallel-siblings=%d", strings.Join(desc, " | "), acts, siblings)}
 	c := &ProcCase{Prog: prog, Buf: d.N(17), Hold: d.N(3)}
-	c.Picks = drawPicks(d, 24)
-	c.Meta = map[string]int{"early": early}
+	c.Picks = drawPicks(d, 40)
+	c.Meta = map[string]int{"early": early, "acts": acts, "siblings": siblings}
 	return c
 }
 
@@ -391,8 +595,8 @@ func checkC05(cc Case, r *simrt.Result) *Outcome {
 			rel++
 		}
 	}
-	if rel > 1 {
-		vl.add("C05/join-released-twice", "the activity after the inclusive join was requested %d times for one fork activation", rel)
+	if rel > c.Meta["acts"] {
+		vl.add("C05/join-released-twice", "the activity after the inclusive join was requested %d times for %d fork activation(s)", rel, c.Meta["acts"])
 	}
 	o.Viol = vl.v
 	nb := 0
@@ -403,6 +607,8 @@ func checkC05(cc Case, r *simrt.Result) *Outcome {
 	}
 	o.Nontrivial = r.Switches > 0 && nb >= 2
 	probe(o, "branch-ended-before-join", c.Meta["early"] > 0)
+	probe(o, "fork-join-re-entered", c.Meta["acts"] > 1)
+	probe(o, "unrelated-parallel-activity", c.Meta["siblings"] > 0)
 	probe(o, "no-effective-flow", len(tg.M.Errors) > 0)
 	probe(o, "three-or-more-branches-active", nb >= 3)
 	o.Sample = map[string]any{"program": c.Prog.Desc, "vars": c.Prog.Vars, "buf": c.Buf, "hold": c.Hold, "requests": tg.Requests, "answer_order": answerOrder(c.env)}
